@@ -4,11 +4,11 @@ go 1.25.0
 
 require github.com/open2b/scriggo v0.0.0
 
-require (
-	golang.org/x/net v0.34.0 // indirect
-	gopkg.in/yaml.v3 v3.0.1 // indirect
-)
+require gopkg.in/yaml.v3 v3.0.1 // indirect
 
 replace github.com/open2b/scriggo => /repo
 
-require github.com/yuin/goldmark v1.7.16
+require (
+	github.com/yuin/goldmark v1.7.16
+	golang.org/x/net v0.34.0
+)
